@@ -161,6 +161,16 @@ func (v *vc) binop(fr *frame, st *state, in *ssa.BinOp) string {
 	case token.MUL:
 		_, xc := constInt(in.X)
 		_, yc := constInt(in.Y)
+		if !xc && !yc && v.fc != nil && len(v.fc.exactConsts) > 0 {
+			// the second factor ranges over the small set of constants named by `exact_consts`: an ite chain of
+			// linear products, the abstract function for any other value of that factor
+			term := fmt.Sprintf("(uf_mul %s %s)", x, y)
+			for i := len(v.fc.exactConsts) - 1; i >= 0; i-- {
+				c := v.fc.exactConsts[i]
+				term = fmt.Sprintf("(ite (= %s %s) (* %s %s) %s)", y, c, x, c, term)
+			}
+			return v.define(name, "Int", v.wrapOrCheck(fr, st, in, term, t))
+		}
 		if !xc && !yc {
 			// nonlinear product: kept abstract (uf_mul) with valid facts about multiplication, so that the
 			// solvers stay in linear arithmetic; precision is lost, soundness is not
@@ -190,6 +200,15 @@ func (v *vc) binop(fr *frame, st *state, in *ssa.BinOp) string {
 			for i := len(v.fc.exactDivs) - 1; i >= 0; i-- {
 				c := v.fc.exactDivs[i]
 				term = fmt.Sprintf("(ite (= %s %s) (%s %s %s) %s)", y, c, op, x, c, term)
+			}
+			return v.define(name, "Int", term)
+		}
+		if _, yc := constInt(in.Y); !yc && signed && in.Op == token.QUO && v.fc != nil && len(v.fc.exactConsts) > 0 {
+			// signed quotient by a divisor from the `exact_consts` set: Go's truncated division by each constant
+			term := fmt.Sprintf("(uf_div %s %s)", x, y)
+			for i := len(v.fc.exactConsts) - 1; i >= 0; i-- {
+				c := v.fc.exactConsts[i]
+				term = fmt.Sprintf("(ite (= %s %s) %s %s)", y, c, truncDiv(x, c), term)
 			}
 			return v.define(name, "Int", term)
 		}
